@@ -484,6 +484,10 @@ def run(ctx):
         for ln in corpus.read_text().split("\n"):
             if ln.strip():
                 cases.append((ln.strip(), [ln.strip()], {"style": "corpus", "calls": 1}))
+    import os
+    stages = set((os.environ.get("KF_STAGES") or "main,hist,plumb").split(","))   # mutation trials may run one stage only
+    if "main" not in stages:
+        cases, N = [], 0
     for i in range(N):
         cases.append(gen_case(g, ctx.tier, i))
     hist_replay = None
@@ -536,12 +540,12 @@ def run(ctx):
     # --- whole filter histories (Model/KFHist.lean) and the measurement-model plumbing
     from checks import kfhist
     hstats, pstats = {}, {}
-    if not ctx.replay or hist_replay:
+    if (not ctx.replay and "hist" in stages) or hist_replay:
         hists = [hist_replay] if hist_replay else [kfhist.gen_history(ctx.gen("kfh"), i, ctx.tier) for i in range(ctx.n(21, 60))]
         hp, hc, hstats = kfhist.run_histories(ctx, binary, hists, "C01")
         prop_bad += hp
         corr_bad += hc
-    if not ctx.replay:
+    if not ctx.replay and "plumb" in stages:
         pp, pc, pstats = plumbing(ctx, binary)
         prop_bad += pp
         corr_bad += pc
@@ -561,7 +565,7 @@ def run(ctx):
         "rule": "KFCorrection objects over a time-varying measurement model (H, R of the same shape may change between calls) used for 1..3 successive correct() calls each (new measurement, new component count per call), likelihood queried 1..3 times per call; near-duplicate consecutive components; the (n,m) grid 1..6 x 1..6 "
                 "first, then random n,m up to %d; k in {1,2,3,4,6}; SPD with prescribed spectrum, cond<=1e6; H of any rank, identity/diagonal/symmetric/zero H, "
                 "zero innovation; non-trivial = more than one scalar dimension or more than one component; distinct = distinct single-call inputs" % (6 if ctx.quick() else 8),
-        "samples": [cases[0][0][:400], cases[-1][0][:400]],
+        "samples": [c_[0][:400] for c_ in (cases[:1] + cases[-1:])] or ["(stages without single-call cases)"],
         "input_weight_modes (0 default, 1 first zero, 2 last zero, 3 all zero, 4 un-normalised, 5 tiny, 6 one negative, 7 one-hot)": wm, "style_histogram": hist, "numeric": stats, "objects": len(cases), "nm_pairs_covered": len(dims),
         "traces_validated_against_impl": ncalls_total,
         "model_vs_impl_disagreements": len(corr_bad), "property_failures_on_impl": len(prop_bad),
